@@ -41,7 +41,7 @@ BOUNDS = {"quick": "deviation bounds per node scenario: " + ", ".join(f"{k}={'fu
           "thorough": "deviation bounds per node scenario: " + ", ".join(f"{k}={'full' if v[1] is None else v[1]}" for k, v in BOUNDS_TBL.items())}
 
 
-def compare(desc, files, root, agg, key, idx, label):
+def compare(desc, files, root, agg, key, idx, label, dev=99):
     try:
         ref = refsuit.encode_envelope(copy.deepcopy(desc), refsuit.FS(files, root))
     except refsuit.RefError as e:
@@ -72,6 +72,22 @@ def compare(desc, files, root, agg, key, idx, label):
     if nc:
         agg.viol("C02:non-canonical", f"{label}: {nc}", artefacts={"desc": desc})
         return None
+    if dev <= 2:
+        # both text renderings of the description through real files
+        for fmt in ("json", "yaml"):
+            try:
+                g2 = impl.tool_create_main(copy.deepcopy(desc), root, fmt)
+            except Exception as e:
+                agg.viol(f"C02:tool-rejects/{fmt}/{type(e).__name__}@{impl.site_of(e)}", f"{label}: the {fmt} rendering of the description is rejected: {type(e).__name__}: {str(e)[:300]}",
+                         artefacts={"desc": desc})
+                return None
+            if g2 != ref:
+                d = impl.diff_path(g2, ref) or ("?", "?")
+                tail = d[0].rsplit("<bstr>/", 1)[-1] if "<bstr>/" in d[0] else d[0]
+                agg.viol(f"C02:mismatch/{fmt}@{tail}", f"{label}: the {fmt} rendering gives bytes that differ from the reference encoding at {d[0]}: {d[1]}",
+                         artefacts={"desc": desc})
+                return None
+        via += "+files"
     return got, via
 
 
@@ -83,7 +99,7 @@ def node_scenario(node):
             desc, files = fn(ch, root)
             key = h8("c02", node, ch.choices)
             idx = key % 100003
-            r = compare(desc, files, root, agg, key, idx, f"{node} {ch.labels()}")
+            r = compare(desc, files, root, agg, key, idx, f"{node} {ch.labels()}", dev=sum(1 for c in ch.choices if c))
             if r:
                 agg.ok(key, f"ok:{r[1]}", sample={"node": node, "choices": ch.labels(), "bytes": len(r[0])} if not any(ch.choices) else None)
     return sc
